@@ -71,21 +71,21 @@ Qed.
    with 400 / 413 and nothing else happens on the connection; no handler runs *)
 Lemma http_conn_bad_length f s i r rest i1 script a :
   hdr_loop s parser0 hreq0 (Z.of_nat (avail i)) i = HDone r rest i1 ->
-  process_request r = PScript script -> mounted script = Some a -> h_cl r < 0 ->
+  process_request r = PScript script -> mounted script = Some a -> setup_throws a = false -> h_cl r < 0 ->
   exists cnt, http_conn (S f) s i = ([IStatus 400], cnt) /\ handled cnt = 0 /\ c_err cnt <= 1.
 Proof.
-  intros HL PR M L. cbn [http_conn]. rewrite HL, PR.
-  destruct (content_start_negative script (h_cl r) (h_ct r) a M L) as (cnt & -> & H1 & H2).
+  intros HL PR M NT L. cbn [http_conn]. rewrite HL, PR.
+  destruct (content_start_negative script (h_cl r) (h_ct r) a M NT L) as (cnt & -> & H1 & H2).
   exists cnt. auto.
 Qed.
 Lemma http_conn_oversized f s i r rest i1 script a :
   hdr_loop s parser0 hreq0 (Z.of_nat (avail i)) i = HDone r rest i1 ->
-  process_request r = PScript script -> mounted script = Some a ->
+  process_request r = PScript script -> mounted script = Some a -> setup_throws a = false ->
   h_cl r > (if is_multipart (h_ct r) then mp_limit else cl_limit) ->
   exists cnt, http_conn (S f) s i = ([IStatus 413], cnt) /\ handled cnt = 0 /\ c_err cnt <= 1.
 Proof.
-  intros HL PR M L. cbn [http_conn]. rewrite HL, PR.
-  destruct (content_start_too_large script (h_cl r) (h_ct r) a M L) as (cnt & -> & H1 & H2).
+  intros HL PR M NT L. cbn [http_conn]. rewrite HL, PR.
+  destruct (content_start_too_large script (h_cl r) (h_ct r) a M NT L) as (cnt & -> & H1 & H2).
   exists cnt. auto.
 Qed.
 
